@@ -54,7 +54,9 @@ Definition meta_case_ok (g : bool) (c : meta_case) : bool :=
   match c with
   | CMetaParse bs cls => match parse_meta bs with Some _ => cls =? 0 | None => cls =? 1 end
   | CMetaU64 v cls => match meta_u64 g v with OOk _ => cls =? 0 | OErr => cls =? 1 | OPanic _ => cls =? 2 end
-  | CMetaOpen v cls => match meta_u64 g v with OOk _ => (cls =? 0) || (cls =? 1) | OErr => cls =? 1 | OPanic _ => cls =? 2 end
+  | CMetaOpen v cls => match meta_u64 g v with OOk _ => (cls =? 0) || (cls =? 1) | OErr => cls =? 1
+                       | OPanic _ => (cls =? 2) || (cls =? 1)   (* the kind lookup precedes the epoch: its absence is an error *)
+                       end
   end.
 Definition check_meta (g : bool) (cs : list meta_case) : list nat := bad_from (meta_case_ok g) 0 cs.
 
